@@ -1,7 +1,7 @@
 (* C03(f) at the lexer: a token classified by table entry i is never a word of a finite-language entry with a
    later index (the tie-break of the longest-match rule), so an IDENT token is never a keyword or a reserved word *)
 From Coq Require Import ZArith.
-From AidlV Require Import Model.LrDriver Proofs.RegexLang Proofs.LexerSafe Proofs.UserTyped.
+From AidlV Require Import Model.LrDriver Proofs.RegexLang Proofs.Typing Proofs.LexerSafe.
 
 (* ---- the chosen entry dominates every matching entry: longer, or as long and not later ---- *)
 Definition dominates (n : nat) (idx : N) (m : nat) (j : N) : Prop := (m < n)%nat \/ (m = n /\ (j <= idx)%N).
@@ -195,19 +195,10 @@ Proof.
   specialize (MX j r sk m Hn M'). destruct MX as [MX|[_ MX]]; lia.
 Qed.
 
-(* ---- the regenerated table ---- *)
-Definition ident_col : N := match index_of "IDENT" gen_terminals 0 with Some c => c | None => 0 end.
+(* ---- the regenerated table (ident_col and named_words: Proofs/Words.v) ---- *)
 Definition ident_lex_idx : nat :=
   match find (fun j => match gen_token_to_integer (N.of_nat j) with Some c => N.eqb c ident_col | None => false end)
              (seq 0 (length gen_lex_table)) with Some j => j | None => O end.
-
-(* the words the property names: AIDL keywords and the reserved Java/C++ words *)
-Definition named_words : list str := map lit
-  ["package"; "import"; "interface"; "parcelable"; "enum"; "oneway"; "const"; "in"; "out"; "inout"; "void";
-   "byte"; "short"; "int"; "long"; "float"; "double"; "boolean"; "char"; "String"; "CharSequence"; "List"; "Map";
-   "true"; "false";
-   "break"; "case"; "catch"; "class"; "continue"; "default"; "do"; "else"; "for"; "goto"; "if"; "new"; "private";
-   "protected"; "public"; "return"; "static"; "switch"; "this"; "throw"; "try"; "volatile"; "while"]%string.
 
 Lemma named_words_covered : forallb (covered gen_lex_table ident_lex_idx) named_words = true.
 Proof. vm_compute. reflexivity. Qed.
@@ -221,4 +212,25 @@ Theorem ident_never_keyword s off a text stop rest w :
 Proof.
   intros H Hw. eapply token_not_later_word; [exact H|].
   pose proof named_words_covered as C. rewrite forallb_forall in C. exact (C w Hw).
+Qed.
+
+(* only that entry produces IDENT *)
+Lemma ident_idx_unique_checked :
+  forallb (fun j => match gen_token_to_integer (N.of_nat j) with
+                    | Some c => negb (N.eqb c ident_col) || Nat.eqb j ident_lex_idx
+                    | None => true end) (seq 0 (length gen_lex_table)) = true.
+Proof. vm_compute. reflexivity. Qed.
+
+Lemma ident_idx_unique j : (j < length gen_lex_table)%nat -> gen_token_to_integer (N.of_nat j) = Some ident_col -> j = ident_lex_idx.
+Proof.
+  intros Hj H. pose proof ident_idx_unique_checked as C. rewrite forallb_forall in C.
+  assert (I : In j (seq 0 (length gen_lex_table))) by (apply in_seq; lia). specialize (C j I). rewrite H in C.
+  rewrite N.eqb_refl in C. cbn in C. apply Nat.eqb_eq in C. exact C.
+Qed.
+
+Theorem ident_token_ok s off a j text stop rest :
+  lex1 s off = LTok a (N.of_nat j) text stop rest -> (j < length gen_lex_table)%nat ->
+  gen_token_to_integer (N.of_nat j) = Some ident_col -> ident_ok text.
+Proof.
+  intros H Hj G. rewrite (ident_idx_unique j Hj G) in H. intros Hin. exact (ident_never_keyword _ _ _ _ _ _ _ H Hin eq_refl).
 Qed.
